@@ -8,7 +8,13 @@ from e2 import *
 from mirsym import models as MD
 
 
+CM = 'crates/anemo/src/network/connection_manager.rs'
+
+
 def run_dial_task():
+    """the whole dial task (async fn body incl. the connect timeout and whatever inner futures/helpers it awaits)"""
+    from props.cmodels import timeout_models
+
     def m_connect(ex, p, call, k):
         p.events.append(Event('connect', call.short.split('::')[-1], call.args[1:]))
         k(p, Sym('connect_res_' + call.short.split('::')[-1], 'Result<endpoint::Connecting, anyhow::Error>'))
@@ -16,9 +22,9 @@ def run_dial_task():
     def m_hs(ex, p, call, k):
         p.events.append(Event('handshake', 'handshake', (call.args[0],)))
         k(p, Sym('hs_future', 'HandshakeFuture'))
-    ex = e2.executor('anemo', [(r'Endpoint::connect(_with_expected_peer_id)?$', m_connect), (r'(^|::)handshake$', m_hs)], max_depth=2)
+    ex = e2.executor('anemo', [(r'Endpoint::connect(_with_expected_peer_id)?$', m_connect), (r'(^|::)handshake$', m_hs)] + timeout_models(), max_depth=5)
     parent = find_method(ex.prog, 'ConnectionManager', 'dial_peer_task')
-    fn = find_closure(ex.prog, parent, [0, 0])
+    fn = find_closure(ex.prog, parent, [0])
     p, args = coroutine_start(ex, fn)
     res = ex.run(fn, args, p)
     return ex, fn, res
@@ -52,6 +58,12 @@ def ob_dial_task(report, prop):
             ret = r.ret
             if not (isinstance(ret, Agg) and ret.name == 'Poll'):
                 return bad(f'unexpected return {vrepr(ret)}', 'dial-ret', r)
+            if ret.variant != 'Ready':
+                continue
+            out = ret.fields[0]
+            if not (isinstance(out, Agg) and out.name == 'ConnectingOutput'):
+                return bad(f'dial task completes with {vrepr(out)[:120]}, not a ConnectingOutput', 'dial-ret', r)
+            cr = out.fields[struct_fields(CM, 'ConnectingOutput').index('connecting_result')]
             con = [e for e in r.events if e.kind == 'connect']
             hs = [e for e in r.events if e.kind == 'handshake']
             if len(con) > 1 or len(hs) > 1:
@@ -71,21 +83,20 @@ def ob_dial_task(report, prop):
                     # plain connect only when no identity was requested
                     if not any(re.search(r'gen\.\d+(\.\*)?\.discr == 0', str(z3.simplify(cnd))) for cnd in r.pc):
                         return bad('plain connect() used although an expected identity was given', 'dial-ignores-expected-id', r)
-            if ret.variant == 'Ready' and isinstance(ret.fields[0], Agg) and ret.fields[0].variant == 'Ok' or \
-                    (ret.variant == 'Ready' and isinstance(ret.fields[0], Sym)):
-                v = ret.fields[0]
+            if (isinstance(cr, Agg) and cr.variant == 'Ok') or isinstance(cr, Sym):
+                # the task reports (possible) success
                 if not con or not hs:
                     return bad('dial reports success without having performed connect + handshake (listener acknowledgement)', 'dial-no-ack', r)
                 conn = hs[0].args[0]
                 if not re.fullmatch(r'poll\(connect_res_\w+@Ok\.0\)#1@Ok\.0', vname(conn)):
                     return bad(f'handshake is run on {vrepr(conn)}, not on the connection just established', 'dial-ack-wrong-conn', r)
-                inner = v.fields[0] if isinstance(v, Agg) else v
+                inner = cr.fields[0] if isinstance(cr, Agg) else cr
                 if not vname(inner).startswith('poll(hs_future)#'):
-                    return bad(f'dial result {vrepr(v)} is not the outcome of the handshake', 'dial-result-not-ack', r)
+                    return bad(f'dial result {vrepr(cr)} is not the outcome of the handshake', 'dial-result-not-ack', r)
                 n_ok += 1
         if not n_ok or kinds != {'connect', 'connect_with_expected_peer_id'}:
             return ob.done([ex], 'inconclusive', f'vacuity: ok paths={n_ok}, connect kinds={kinds}', paths=len(res))
         ob.done([ex], 'held', '', {'paths': len(res), 'success_paths': n_ok, 'example': path_summary(res[0])}, paths=len(res))
     return guarded(report, 'dial_waits_for_listener_ack', 'every dial path that reports success performed exactly one connect and awaited wire::handshake on that connection; '
                    'the expected identity (if any) is passed unchanged to connect_with_expected_peer_id, plain connect only without one',
-                   ['ConnectionManager::dial_peer_task::{async block}'], {'inline_depth': 2}, body)
+                   ['ConnectionManager::dial_peer_task'], {'inline_depth': 5, 'tokio::time::timeout': 'contract model'}, body)
